@@ -71,7 +71,9 @@ type BannerCase struct {
 
 var (
 	ctypes = []string{"text/html", "text/html; charset=utf-8", "TEXT/HTML", "Text/Html;charset=UTF-8", "application/xhtml+xml", "text/plain", "application/json",
-		"text/htmlx", "application/octet-stream", "image/png", "text/xml", "application/XHTML+XML"}
+		"text/htmlx", "application/octet-stream", "image/png", "text/xml", "application/XHTML+XML",
+		// not HTML, although a parameter mentions it
+		"application/json; profile=\"text/html\"", "multipart/related; type=\"text/html\"; boundary=b", "text/plain; charset=utf-8; x-original-type=\"text/html\""}
 	dispositions = []string{"", "", "", "inline", "attachment", "attachment; filename=\"x.html\"", "Attachment; filename=x.html", "ATTACHMENT", "inline; filename=attachment.html",
 		"attachment; filename=monthly report.html", "attachment; filename", "attachment; filename=", "attachment;", "attachment ; filename=\"a\"; filename=\"b\"",
 		"attachment; filename=r\u00e9sum\u00e9.html", "attachment; filename*=UTF-8''x.html", " attachment", "attachment; filename=a/b.html", "attachment;filename=\"unterminated"}
@@ -238,12 +240,21 @@ func (c *BannerCase) mayAlter() bool {
 		return false
 	}
 	for _, ct := range c.ContentType {
-		l := strings.ToLower(ct)
+		l := mediaTypeOf(ct)
 		if strings.Contains(l, "text/html") || strings.Contains(l, "application/xhtml+xml") {
 			return true
 		}
 	}
 	return false
+}
+
+// mediaTypeOf returns the lower-cased media type of a Content-Type value without its parameters: what a parameter
+// says (profile="text/html", type="text/html") does not make a response an HTML document.
+func mediaTypeOf(ct string) string {
+	if i := strings.IndexByte(ct, ';'); i >= 0 {
+		ct = ct[:i]
+	}
+	return strings.ToLower(strings.TrimSpace(ct))
 }
 
 func (c *BannerCase) framedAlready() bool {
@@ -365,12 +376,13 @@ const startMark, endMark = "<!--START_WEBSOCKET_SHIM-->", "<!--END_WEBSOCKET_SHI
 
 func genShim(t *rapid.T) ShimCase {
 	c := ShimCase{
-		ContentType: rapid.SampledFrom([]string{"text/html", "text/html; charset=utf-8", "TEXT/HTML", "application/xhtml+xml", "text/plain", "application/json", "", "image/svg+xml", "text/HTML"}).Draw(t, "ct"),
-		HeadForm:    rapid.SampledFrom([]string{"<head>", "<head>", "<head>", "<HEAD>", "<head lang=\"en\">", "<head >", "<header>"}).Draw(t, "form"),
-		Repeat:      rapid.Bool().Draw(t, "repeat"),
-		Tail:        rapid.SampledFrom([]int{0, 10, 2000, 70000}).Draw(t, "tail"),
-		Status:      rapid.SampledFrom([]int{200, 200, 404, 500}).Draw(t, "status"),
-		ThenBanner:  rapid.IntRange(0, 3).Draw(t, "banner") == 0,
+		ContentType: rapid.SampledFrom([]string{"text/html", "text/html; charset=utf-8", "TEXT/HTML", "application/xhtml+xml", "text/plain", "application/json", "", "image/svg+xml", "text/HTML",
+			"application/json; profile=\"text/html\"", "multipart/related; type=\"text/html\"; boundary=b"}).Draw(t, "ct"),
+		HeadForm:   rapid.SampledFrom([]string{"<head>", "<head>", "<head>", "<HEAD>", "<head lang=\"en\">", "<head >", "<header>"}).Draw(t, "form"),
+		Repeat:     rapid.Bool().Draw(t, "repeat"),
+		Tail:       rapid.SampledFrom([]int{0, 10, 2000, 70000}).Draw(t, "tail"),
+		Status:     rapid.SampledFrom([]int{200, 200, 404, 500}).Draw(t, "status"),
+		ThenBanner: rapid.IntRange(0, 3).Draw(t, "banner") == 0,
 	}
 	switch rapid.IntRange(0, 5).Draw(t, "where") {
 	case 0:
@@ -475,7 +487,7 @@ func runShim(c *ShimCase) vh.Outcome {
 		o.Err = fmt.Errorf("ShimBody returned an error: %v", err)
 		return o
 	}
-	isHTML := strings.Contains(strings.ToLower(c.ContentType), "html")
+	isHTML := strings.Contains(mediaTypeOf(c.ContentType), "html")
 	o.NonTrivial = isHTML
 	if c.Empty {
 		o.Classes = append(o.Classes, "empty-body")
